@@ -456,6 +456,14 @@ func (r *UnitRun) allocStruct(st *State, t types.Type, sv Val, n ast.Node) Val {
 	st.assume(not(eq(ref, w.nilOf(sort))))
 	st.assume(eq(sx("birth_"+sanitize(sort), ref), intLit(int64(r.allocN))))
 	st.markFresh(ref)
+	// a new object is not yet stored anywhere: it differs from every element of every live slice of its sort
+	for o, arr := range st.arrs {
+		if o.elem == sort {
+			qcount++
+			k := fmt.Sprintf("k!q%d", qcount)
+			st.assume(fmt.Sprintf("(forall ((%s Int)) (! (not (= (select %s %s) %s)) :pattern ((select %s %s))))", k, arr, k, ref, arr, k))
+		}
+	}
 	u := sty.Underlying().(*types.Struct)
 	for i := 0; i < u.NumFields(); i++ {
 		fi := w.field(sty, u.Field(i).Name())
